@@ -351,7 +351,7 @@ End Tileset.
 Theorem validate_external_tileset_refused h p id t :
   zfind id (pi_tilesets p) = Some t -> ts_pixels t = None -> forall f, validate h p <> Ok f.
 Proof.
-  intros Hfind Hpx f H. unfold validate in H.
+  intros Hfind Hpx f H. unfold validate in H; rewrite ?frev_eq in H.
   apply rbind_ok in H. destruct H as (parents & _ & H).
   apply rbind_ok in H. destruct H as (tss & Hts & _).
   unfold validate_tilesets in Hts.
